@@ -6,7 +6,7 @@ import ast
 
 class Contract:
     def __init__(self, key, requires=(), ensures=(), yields=(), raises=None, raises_iff=(), loops=None,
-                 props=(), inherits=None, unfold=(), lemmas=(), note="", trusted=False, decreases=None, abstract=False, defines=(), heavy=False, hide=(), depth=0, mutates=None, raises_ensures=(), comps=None, fn_vars=None, aliases=None, dispatch=None):
+                 props=(), inherits=None, unfold=(), lemmas=(), note="", trusted=False, decreases=None, abstract=False, defines=(), heavy=False, hide=(), depth=0, mutates=None, raises_ensures=(), comps=None, fn_vars=None, aliases=None, dispatch=None, open_goal=False):
         self.key = key  # "module:Class.method"
         self.requires = list(requires)
         self.ensures = list(ensures)
@@ -21,6 +21,7 @@ class Contract:
         self.lemmas = list(lemmas)
         self.mutates = dict(mutates or {})  # parameter -> class: object updated in place; ensures speak of `p` (exit) and `p0` (entry)
         self.raises_ensures = list(raises_ensures)  # clauses at exceptional exits, the exception bound to `exc`
+        self.open_goal = open_goal  # replace predicate applications in the goal by their bodies before skolemisation
         self.dispatch = dict(dispatch or {})  # source text of a table expression ("self.token_map") -> attribute of the class's __init__ dict literal
         self.aliases = dict(aliases or {})  # local name -> expression it is an alias of (same mutable object): reads go through the expression
         self.fn_vars = dict(fn_vars or {})  # local variable holding a function value -> key of the contract every such value satisfies
